@@ -1536,7 +1536,18 @@ impl World {
         let id = self.members[m].id.clone();
         let (kvs, mv, gc) = {
             let Some(ns) = self.slots[src].cc.as_ref().unwrap().node_state(&id) else { return };
-            (ns.key_values_including_deleted().map(|(k, v)| (k.to_string(), v.clone())).collect::<Vec<_>>(), ns.max_version(), ns.last_gc_version())
+            // what the application fetched is stamped on receipt (the instants of the source node do not travel)
+            let now = Instant::now();
+            let restamp = |v: &chitchat::VersionedValue| chitchat::VersionedValue {
+                value: v.value.clone(),
+                version: v.version,
+                status: match v.status {
+                    chitchat::DeletionStatus::Set => chitchat::DeletionStatus::Set,
+                    chitchat::DeletionStatus::Deleted(_) => chitchat::DeletionStatus::Deleted(now),
+                    chitchat::DeletionStatus::DeleteAfterTtl(_) => chitchat::DeletionStatus::DeleteAfterTtl(now),
+                },
+            };
+            (ns.key_values_including_deleted().map(|(k, v)| (k.to_string(), restamp(v))).collect::<Vec<_>>(), ns.max_version(), ns.last_gc_version())
         };
         let was_removed = self.slots[n].removed_hb.contains_key(&m) && !self.slots[n].snap.copies.contains_key(&m);
         let cc = self.slots[n].cc.as_mut().unwrap();
